@@ -241,9 +241,20 @@ def _check_level(formulas, extra_axioms, level, timeout_ms, want_model, use_cvc5
         res = Result("sat", backend, time.time() - t0, model=s.model() if want_model else None)
         if had_trans:
             # transcendental functions were replaced by fresh constants / left uninterpreted up to ground axioms: a model
-            # of that abstraction is a candidate only (it must be confirmed by replaying it on the real code)
-            res.inexact = True
-            res.detail = "model of the abstraction in which transcendental functions are uninterpreted: candidate only"
+            # of that abstraction is a candidate only - unless its input values, re-evaluated with rigorous interval
+            # arithmetic for the real functions, definitely satisfy every original formula (A12), or it is confirmed by
+            # replaying it on the real code
+            ok = False
+            try:
+                from . import numeval
+                ok = numeval.validates(list(formulas) + list(extra_axioms), s.model())
+            except Exception:
+                ok = False
+            if ok:
+                res.backend = backend + "+interval-validated-model"
+            else:
+                res.inexact = True
+                res.detail = "model of the abstraction in which transcendental functions are uninterpreted: candidate only"
         return res
     detail = "z3: " + s.reason_unknown()
     if use_cvc5 and os.path.exists(CVC5):
